@@ -106,6 +106,52 @@ CHECKS = {
         note="Chains follow the grammar as written (right-nested, no precedence, ! binds to the next term); a bare selector means presence/truthiness; the verdict is "
              "not pinned (only 'no exception') for a few str/bytes operand mixes listed in the harness; 'retained' = ring buffer plus entries that aged out while "
              "visible and matched every later filter; fnmatch, the C01 codec, hmc.msggen and mitmproxy test flows (uuid4/time pinned) trusted."),
+    "C05": dict(
+        category="model_checking", design_ref="DESIGN.md §4 C05",
+        technique="explicit-state BFS (level-synchronous, deviation-bounded staircase, canonical state hashing) over the real ProxiedCircuit under a virtual "
+                  "loop/clock, differential against a reference model, plus deep-vs-shallow seam conformance",
+        text="Every history over {endpoint send reliable/unreliable with appended acks for none/oldest/newest/all pending receipts, forwarded or dropped; standalone "
+             "PacketAck; endpoint retransmission; proxy injection reliable/unreliable; tick short/past/exhaust} per direction is executed on a real ProxiedCircuit "
+             "(real deserializer in, real serializer out) up to depth 5 with <=3 deviations (quick), plus depth 6/<=2 and 7/0 (thorough); the same histories to depth "
+             "3 (4) are replayed through InterceptingLLUDPProxyProtocol.datagram_received with a real Session, a drop addon and the attempt_resends task and must "
+             "emit identical datagrams. The oracle reads only the decoded datagrams handed to the transport and the futures of send_reliable, one clause per sentence.",
+        note="Endpoints number packets 1,2,3.., ack only reliable packets they received, retransmit only their own unacked reliable packets; delivery to endpoints is "
+             "lossless and instant (late/lost acks via ack-selection choices); retry budget and interval read from the code; one poll of slack at the interval "
+             "boundary; not covered: ID wrap, 10000-window eviction, StartPingCheck rewriting, dropping a standalone PacketAck; hmc.refwire, a 20-line decoder, "
+             "hmc.vloop and the hand-written world clone (re-validated by full replay on every 53rd state) trusted."),
+    "C06": dict(
+        category="model_checking", design_ref="DESIGN.md §4 C06",
+        technique="explicit-state BFS on InterceptingLLUDPProxyProtocol.datagram_received (replay-from-history, canonical state hashing, deviation bounding) + bounded-exhaustive sweeps",
+        text="BFS over the real datagram_received with 2 associations x 2 regions (shared simulator addresses, one IP): valid datagrams (UseCircuitCode first "
+             "contact/repeat, ordinary, reliable with acks, both directions) interleaved with 21 kinds of garbage, to depth 4 / 2 deviations (quick) and 5 / 3 "
+             "(thorough) from two bases, states deduplicated on full session, circuit, tracker and address-map state. Plus exhaustive sweeps: every garbage/valid "
+             "interleaving in two deep base states, the SOCKS framing law over addresses x ports x payload lengths, and every template x value row in both "
+             "directions through one open circuit, with independently parsed SOCKS and LLUDP headers.",
+        note="One message shape per event class in the BFS (all 481 templates only in the single-circuit sweep); exceptions escaping datagram_received are swallowed as "
+             "asyncio's datagram transport does; the ban list is an inbound rule; an ACK flag with an empty ack list compares equal to no ACK flag; no circuit death, "
+             "viewer port change or packet-id wrap in the BFS; HOME viewer-cache scan, message.xml re-parse and multiprocessing queues neutralised by the harness."),
+    "C07": dict(
+        category="fault_enumeration", design_ref="DESIGN.md §4 C07",
+        technique="exhaustive fault-placement enumeration up to a fault bound against a reference dispatch/ownership model, plus exhaustive op-sequence enumeration "
+                  "of the message-ownership state machine",
+        text="For each of 14 messages (direction x reliability with an ack of a proxy-injected packet x {chat, command-channel chat, RLV with 1 and 2 commands, "
+             "CloseCircuit}), every single behaviour of every hook slot (3 addons x handle_proxied_packet / session subscriber / region subscriber / "
+             "handle_lludp_message / handle_rlv_command / command) over 14 behaviours, every slot pair over a 10-behaviour list and (thorough) every one-slot-per-addon "
+             "triple is executed on the real protocol, followed by a probe datagram per direction; wire emissions are attributed to Message objects and compared with a "
+             "reference model. Separately all op sequences of length <=4 over {take, send, drop, queue, sendcopy} x 8 message variants on a bare ProxiedCircuit.",
+        note="Behaviours are armed for the message under test only; pairs/triples use representative lists; async subscribers are represented by the sync take(); "
+             "ownership combinations the proxy itself rejects with RuntimeError are checked for the wire and probe clauses only and counted; only Exception subclasses "
+             "are raised; the reference model follows the documented dispatch rules."),
+    "C16": dict(
+        category="model_checking", design_ref="DESIGN.md §4 C16",
+        technique="explicit-state BFS by history replay over the real SessionManager/Session/ProxiedRegion/MITMProxyEventManager + exhaustive enumeration of seed request/response cases",
+        text="BFS over the real objects in a 2-session x 2-region universe against a plain list-of-grants reference model (three stated alphabets: full on the first "
+             "region, full on the last region in resolution order, lite across all four); after every transition every known URL (plus a suffix) is resolved at "
+             "manager, session and region level and every cap name is looked up in every region. The Seed request/response rewriting is additionally enumerated "
+             "exhaustively over viewer lists x simulator grants behind 9 prefixes through the real event manager.",
+        note="The simulator grants only names in the upstream request; Seed URLs unique per region; a live one-shot URL is not registered again; a URL extending several "
+             "live grants may resolve to any of them; plain asset caps may resolve with region/session None as documented; llsd XML, mitmproxy state serialisation "
+             "and in-memory queue stand-ins trusted."),
 }
 
 PENDING_REASON = "check not built yet (build in progress; will be claimed once its harness exists)"
